@@ -299,8 +299,17 @@ def run(rep, ctx):
              "num_values=%s tablen=%s tabNlines=%s" % (locs.get("num_values"), locs.get("tablen"), locs.get("tabNlines")))
     mk = [v for v in WS.walk() if v["k"] == "VarDecl" and v.get("name") == "mask"]
     mval = cv(kids(mk[0])[0]) if mk else None
-    hk = [n for n in SH.walk() if n["k"] == "BinaryOperator" and n.get("op") == ">" and render(kids(n)[0]).endswith("h.kind")]
-    kmax = cv(kids(hk[0])[1]) if hk else None
+    # the reader's upper limit for kind: `kind > c` (or `c < kind`) leads to rejection; the header may be reached through a reference
+    kmax = None
+    hk = []
+    for n in SH.walk():
+        if n["k"] == "BinaryOperator" and n.get("op") in (">", "<"):
+            a_, b_ = kids(n)
+            if n["op"] == "<":
+                a_, b_ = b_, a_
+            if xrender(SH, a_, True).replace(" ", "").endswith("h.kind") and cv(b_) is not None:
+                hk.append(n)
+                kmax = cv(b_)
     t2.check(mval is not None and kmax is not None and 0 <= mval <= kmax, "suffix-kind-range", short_loc(mk[0].get("l")) if mk else "",
              "kind & %s stays within the reader's accepted range [0,%s]" % (mval, kmax), "mask %s vs reader maximum %s" % (mval, kmax))
     lg = [c for c in GS.walk() if c["k"] == "CallExpr" and c.get("callee") == "mp::Lget"]
